@@ -58,7 +58,7 @@ PROPERTIES = {
                 assumptions=['locks taken inside user closures / predicates / estimate_memory are not covered', 'parking_lot locks are fair enough not to starve (deadlock freedom only)'],
                 trusted=['extract/locks.py: guard lifetimes follow Rust drop semantics (let-bound guards to end of block, temporaries to end of statement / scrutinee construct)']),
     'C06': dict(units=ENGINES, explanation='is_expired == (age >= ttl) and the get postconditions never_serves_expired / purges_expired / serves_unexpired, for all ttl and ages'),
-    'C04': dict(units=ENGINES, explanation='wf / bound / exact-victim postconditions of insert and of the entry-limit eviction, all N, all six policies'),
+    'C04': dict(units=ENGINES + ['wrappers_global', 'wrappers_async'], explanation='wf / bound / exact-victim postconditions of insert and of the entry-limit eviction, all N, all six policies; the invalidation callbacks and wrappers emitted by the macros preserve the representation invariant the capacity bookkeeping rests on (queue and store hold exactly the same keys, once each)'),
     'C01': dict(units=ENGINES + WRAPPERS, explanation='get returns a clone of the value stored under exactly this key; insert: last store wins, survivors unchanged'),
     'C07': dict(units=ENGINES, explanation='queue postconditions: hit_recency, store moves key to back, FIFO/LRU victim is the queue front'),
     'C08': dict(units=ENGINES_SCORES, extra=[_kani('C08')], explanation='hit_counts postcondition and argmin postconditions of the scoring helpers'),
@@ -67,8 +67,8 @@ PROPERTIES = {
     'C02': dict(units=WRAPPERS + ['keys'], explanation='wrapper contracts: on every fixture expansion the cache is read and written under exactly key_str(d(p1) + "|" + d(p2) ...) with every parameter (and the receiver) present in order, d = Debug rendering (keys.rs blanket impl verified); lemmas: such keys are injective on argument tuples when each rendering is injective and "|"-safe',
                 assumptions=['std Debug of the built-in key types is injective and self-delimiting w.r.t. "|" (axioms ax_builtin_debug / ax_builtin_types); user CacheableKey impls and distinct NaN payloads are not covered'],
                 trusted=['R9 rewrites: expanded format!("{:?}", x) -> debug_fmt(&x); Vec<String>::join(sep) -> vec_join']),
-    'C03': dict(units=ENGINES + WRAPPERS, explanation='engine contracts (a lookup never removes an unexpired entry; an unbounded store keeps everything) and wrapper contracts on the real macro expansions: a hit is served without running the body, a miss runs it exactly once and stores the result (effect log)',
-                assumptions=['the concurrent sentence of the property (several simultaneous missers) is not covered: sequential histories only', 'fixture bodies are deterministic functions of their arguments']),
+    'C03': dict(units=ENGINES + WRAPPERS + ['monotone', 'wrappers_async_await'], explanation='engine contracts (a lookup never removes an unexpired entry; an unbounded store keeps everything) and wrapper contracts on the real macro expansions: a hit is served without running the body, a miss runs it exactly once and stores the result (effect log). Concurrent sentence (global and async engines, configuration without limit / ttl / max_memory): unit monotone proves on the real get / insert code, under the interference projection, that every store critical section leaves every resident key resident (rely/guarantee: ghost key set threaded through the acquisitions), that a lookup returning None did not see the key at its read section, and that the key is resident when insert returns; unit wrappers_async_await: with arbitrary interference at the .await the body runs at most once per call and the resumed call stores its result',
+                assumptions=['concurrent sentence: the final step from "every critical section is monotone" to "no lookup misses after a storing call has returned" is a two-line argument over the proved obligations, not mechanised; the sync wrappers under interference during the body are not mechanised (the body runs with no lock held: lock analysis)', 'fixture bodies are deterministic functions of their arguments']),
     'C09': dict(units=ENGINES + WRAPPERS, explanation='insert_result* leave the cache untouched for Err and store Ok; wrapper contracts on the expansions of Result / std::result::Result fixtures (sync and async, with and without max_memory): Err is never stored, Ok is'),
     'C10': dict(units=WRAPPERS, explanation='wrapper contracts on the expansions of cache_if fixtures: the predicate is consulted exactly once per body run with that key (effect log) and its verdict on (key, result) decides the store; sync Result: only Ok',
                 assumptions=['predicates are pure functions of (key, value)']),
